@@ -10,6 +10,9 @@ namespace NessaiVerif.Term
 def HasOk (b : List (Nat × PK)) : Prop := ∃ p ∈ b, p.2 = PK.ok
 def NoOk (b : List (Nat × PK)) : Prop := ∀ p ∈ b, p.2 ≠ PK.ok
 
+instance (b : List (Nat × PK)) : Decidable (HasOk b) := by unfold HasOk; exact inferInstance
+instance (b : List (Nat × PK)) : Decidable (NoOk b) := by unfold NoOk; exact inferInstance
+
 theorem insStep_used (st : InsState) (b : List (Nat × PK)) : (insStep st b).used = st.used + 1 := by
   unfold insStep; simp only []; split
   · rfl
@@ -90,6 +93,52 @@ theorem insLoop_spin (n : Nat) (bs : List (List (Nat × PK))) (st : InsState)
     have h2 := insStep_used st b
     obtain ⟨s, hs, hu, ha⟩ := ih (insStep st b) (fun b' hb' => hb b' (by simp [hb'])) (by omega)
     exact ⟨s, hs, by simp only [List.length_cons]; omega, by omega⟩
+
+
+/-- number of points of a batch that pass both masks -/
+def okCount (b : List (Nat × PK)) : Nat := b.countP (fun p => p.2 == PK.ok)
+/-- …and of a whole stream -/
+def okTotal : List (List (Nat × PK)) → Nat
+  | [] => 0
+  | b :: bs => okCount b + okTotal bs
+
+theorem filter_ok_length (b : List (Nat × PK)) :
+    ((b.filter (fun p => p.2 != PK.rej1)).filter (fun p => p.2 == PK.ok)).length = okCount b := by
+  unfold okCount
+  rw [List.filter_filter, List.countP_eq_length_filter]
+  congr 1
+  apply List.filter_congr
+  intro p _
+  cases p.2 <;> rfl
+
+/-- the loop body accepts exactly the points that pass both masks -/
+theorem insStep_nAcc_eq (st : InsState) (b : List (Nat × PK)) : (insStep st b).nAcc = st.nAcc + okCount b := by
+  have hlen := filter_ok_length b
+  unfold insStep
+  simp only []
+  split
+  · rename_i h1
+    have : (b.filter (fun p => p.2 != PK.rej1)).filter (fun p => p.2 == PK.ok) = [] := by
+      rw [List.isEmpty_iff.mp h1]; rfl
+    rw [this] at hlen; simp at hlen; simp only []; omega
+  · split
+    · rename_i h2
+      rw [List.isEmpty_iff.mp h2] at hlen; simp at hlen; simp only []; omega
+    · simp only []; omega
+
+/-- exact termination criterion of `ImportanceFlowProposal.draw` -/
+theorem insLoop_isDone_iff (n : Nat) (hd : insNDraw n ≠ 0) (bs : List (List (Nat × PK))) (st : InsState) :
+    (insLoop n bs st).isDone = true ↔ n ≤ st.nAcc + okTotal bs := by
+  induction bs generalizing st with
+  | nil =>
+    unfold insLoop okTotal
+    by_cases h : n ≤ st.nAcc <;> simp [h, hd, Outcome.isDone]
+  | cons b bs ih =>
+    unfold insLoop okTotal
+    by_cases h : n ≤ st.nAcc
+    · simp only [h, true_or, if_true, Outcome.isDone, true_iff]; omega
+    · simp only [h, hd, or_self, if_false]
+      rw [ih, insStep_nAcc_eq]; omega
 
 theorem insNDraw_pos (n : Nat) (h : 1 ≤ n) : insNDraw n ≠ 0 := by
   unfold insNDraw; omega
@@ -270,6 +319,24 @@ theorem nsLive_spin (nlive : Nat) (cs : List Cand) (st : LiveState)
     obtain ⟨s, hs, h1, h2⟩ := ih { st with draws := st.draws + 1 } (fun c' hc' => h c' (by simp [hc'])) hlt
     exact ⟨s, hs, h1, by simp only [List.length_cons] at *; omega⟩
 
+
+/-- exact termination criterion of `NestedSampler.populate_live_points` -/
+theorem nsLive_isDone_iff (nlive : Nat) (cs : List Cand) (st : LiveState) :
+    (nsLive nlive cs st).isDone = true ↔ nlive ≤ st.i + cs.countP candStored := by
+  induction cs generalizing st with
+  | nil =>
+    unfold nsLive
+    by_cases h : nlive ≤ st.i <;> simp [h, Outcome.isDone]
+  | cons c r ih =>
+    unfold nsLive
+    by_cases h : nlive ≤ st.i
+    · simp only [h, if_true, Outcome.isDone, true_iff]; omega
+    · simp only [h, if_false]
+      rw [ih, List.countP_cons]
+      by_cases hc : candStored c = true
+      · simp only [hc, if_true]; omega
+      · simp only [hc, Bool.false_eq_true, if_false]; omega
+
 /-- the long guard chain of the code is the conjunction "log-prior finite and log-likelihood finite" -/
 theorem candStored_iff (c : Cand) : candStored c = (c.logP.isFinite && (candL c).isFinite) := by
   unfold candStored
@@ -278,6 +345,8 @@ theorem candStored_iff (c : Cand) : candStored c = (c.logP.isFinite && (candL c)
 /-! ### ImportanceNestedSampler.populate_live_points -/
 
 def HasFinite (b : List (Nat × Bool)) : Prop := ∃ p ∈ b, p.2 = true
+
+instance (b : List (Nat × Bool)) : Decidable (HasFinite b) := by unfold HasFinite; exact inferInstance
 
 theorem insLive_done (target : Nat) (bs : List (List (Nat × Bool))) (st : InsLiveState)
     (hg : ∀ b ∈ bs, HasFinite b) (hlen : target ≤ st.n + bs.length) (hinv : st.ids.length = st.n)
@@ -306,6 +375,28 @@ theorem insLive_done (target : Nat) (bs : List (List (Nat × Bool))) (st : InsLi
         (by simp only [List.length_append, List.length_take]; omega)
         (by simp only []; omega)
       exact ⟨s, hs, h1, h2, by simp only [] at h3; omega⟩
+
+
+/-- number of finite-prior points of a stream of prior batches -/
+def finiteTotal : List (List (Nat × Bool)) → Nat
+  | [] => 0
+  | b :: bs => (b.filter (·.2)).length + finiteTotal bs
+
+/-- exact termination criterion of `ImportanceNestedSampler.populate_live_points` -/
+theorem insLive_isDone_iff (target : Nat) (bs : List (List (Nat × Bool))) (st : InsLiveState) (hle : st.n ≤ target) :
+    (insLive target bs st).isDone = true ↔ target ≤ st.n + finiteTotal bs := by
+  induction bs generalizing st with
+  | nil =>
+    unfold insLive finiteTotal
+    by_cases h : target ≤ st.n <;> simp [h, Outcome.isDone]
+  | cons b r ih =>
+    unfold insLive finiteTotal
+    by_cases h : target ≤ st.n
+    · simp only [h, if_true, Outcome.isDone, true_iff]; omega
+    · simp only [h, if_false]
+      rw [ih _ (by simp only [List.length_map]; omega)]
+      simp only [List.length_map]
+      omega
 
 theorem insLive_spin (target : Nat) (bs : List (List (Nat × Bool))) (st : InsLiveState)
     (hb : ∀ b ∈ bs, ∀ p ∈ b, p.2 = false) (hlt : st.n < target) :
